@@ -221,6 +221,22 @@ pub fn count(name: &str, by: u64) {
     });
 }
 
+/// Payload with which a simulated thread is unwound once the simulated process has exited.
+pub struct ProcessExit;
+
+/// The simulated process ends here (its main thread has returned or is unwinding out of `main`):
+/// under std every other thread dies with it. Simulated threads that are still alive are unwound
+/// quietly at their next `thread::sleep` (the seams' spawn wrapper absorbs the payload), so a
+/// detached poller left behind is not mistaken for a hang of the call under test.
+pub fn process_exit() {
+    if in_sim() {
+        set_counter("process_exited", 1);
+    }
+}
+pub(crate) fn process_exited() -> bool {
+    in_sim() && STATE.with(|s| s.borrow().counters.get("process_exited").copied().unwrap_or(0) == 1)
+}
+
 /// Set a named counter of the current run to `v` (no-op outside a simulation).
 pub fn set_counter(name: &str, v: u64) {
     if !in_sim() {
